@@ -157,12 +157,13 @@ fn short(o: &ApiOutcome) -> String {
     s.chars().take(160).collect()
 }
 
-/// does the sentence announce a fragment count of 0?
+/// is the sentence "fragment 1 of 0" without a sequence id - the one sentence of the recorded
+/// finding D9? (Any other "k of 0", or one with an id, keeps its own site and is reported.)
 fn irregular_count_zero(line: &[u8]) -> bool {
     match lex(line) {
         Some(lx) if lx.fields.len() == 7 => {
-            let f = lx.field(line, 1).unwrap_or(b"x");
-            !f.is_empty() && f.iter().all(|b| *b == b'0')
+            let num = |i: usize| -> Option<u32> { std::str::from_utf8(lx.field(line, i)?).ok()?.parse::<u32>().ok() };
+            num(1) == Some(0) && num(2) == Some(1) && lx.field(line, 3).map_or(false, |f| f.is_empty())
         }
         _ => false,
     }
@@ -329,7 +330,9 @@ impl Prop for C18 {
                     if let Some(st) = st.as_deref_mut() {
                         st.direct_api_calls += 3;
                     }
-                    let too_large = (bytes.len() * 6 + 7) / 8 > CAP_PAYLOAD;
+                    // "384 payload bytes": the payload handed to unarmor, counted in its own bytes
+                    // (not in the bytes it unarmors to, which is how the code under test counts)
+                    let too_large = bytes.len() > CAP_PAYLOAD;
                     if let Some(v) = api_compare(i, "unarmor", &a, &b, &c, too_large, bytes) {
                         return Some(v);
                     }
@@ -562,22 +565,28 @@ impl Prop for C18 {
                 if let Outcome::Complete(s, _) = &o_std {
                     if l.decode && s.message.is_some() {
                         if let Some(ty) = s.data.first().and_then(|&c| unarmor_char(c)) {
-                            let bytes = (s.data.len() * 6 + 7) / 8;
+                            // in the property's terms: the bits that were transmitted after the
+                            // header (6 per payload character, less the fill count)
+                            let tx_bits = (s.data.len() * 6).saturating_sub(s.fill.min(5) as usize);
+                            let both = matches!(o_none, Outcome::Complete(..));
                             match ty {
                                 6 | 8 | 17 => {
                                     let hdr = match ty {
-                                        6 => 11,
-                                        8 => 7,
-                                        _ => 15,
+                                        6 => 88,
+                                        8 => 56,
+                                        _ => 120,
                                     };
-                                    st.probe_if(bytes.saturating_sub(hdr) == CAP_BINARY, "binary data exactly 119 bytes (accepted by both)");
-                                    st.probe_if(bytes.saturating_sub(hdr) == CAP_BINARY + 1, "binary data 120 bytes");
+                                    let data_bits = tx_bits.saturating_sub(hdr);
+                                    st.probe_if(both && data_bits == CAP_BINARY * 8, "binary data of exactly 119 bytes transmitted, accepted by all builds");
+                                    st.probe_if(both && ty != 8 && data_bits == CAP_BINARY * 8, "the same in a type 6 / 17 message (padding byte after the data: D11)");
+                                    st.probe_if(data_bits > CAP_BINARY * 8 && data_bits <= (CAP_BINARY + 1) * 8, "binary data of up to one byte more than 119 transmitted");
                                 }
                                 12 | 14 => {
                                     let hdr = if ty == 12 { 72 } else { 40 };
-                                    let chars = (bytes * 8).saturating_sub(hdr) / 6;
-                                    st.probe_if(chars == CAP_TEXT, "text exactly 20 characters (accepted by both)");
-                                    st.probe_if(chars == CAP_TEXT + 1, "text 21 characters");
+                                    let chars = tx_bits.saturating_sub(hdr) / 6;
+                                    st.probe_if(both && chars == CAP_TEXT, "text of exactly 20 characters transmitted, accepted by all builds");
+                                    st.probe_if(both && ty == 14 && chars == CAP_TEXT, "the same in a type 14 message (padding character after the text: D10)");
+                                    st.probe_if(chars == CAP_TEXT + 1, "text of 21 characters transmitted");
                                 }
                                 7 | 13 | 20 => {
                                     st.probe("list message (many_m_n) decoded in all builds");
